@@ -65,10 +65,11 @@ def R.ofOpt {α β} (f : α → β) : Option (α × Bytes) → R β
   | some (v, rest) => R.ok 0 (f v) rest
   | none => R.fail
 
-/-- bytes charged for `make([]byte, n)`: the allocator rounds up to a size class (at most one
-    eighth more for small objects, to the next 8 KiB page for large ones; a tiny object takes a
-    16-byte block) -/
-def bufCost (n : Nat) : Nat := if n = 0 then 0 else n + n / 4 + 16
+/-- bytes charged for reading an `n`-byte var-bytes / var-string: `make([]byte, n)` rounded up to a
+    size class (at most one eighth more for small objects, to the next 8 KiB page for large ones; a
+    tiny object takes a 16-byte block), and — for `ReadVarString` — the copy made by `string(buf)`.
+    The meter charges the string cost for every var-bytes field (an upper bound for byte slices). -/
+def bufCost (n : Nat) : Nat := if n = 0 then 0 else 2 * n + n / 2 + 32
 
 def encCount (cw n : Nat) : Bytes := if cw = 0 then encVarUint n else leEnc cw n
 def decCount (cw : Nat) (bs : Bytes) : Option (Nat × Bytes) :=
@@ -237,7 +238,7 @@ end
 /- allocation per consumed byte (the `K` of the bound) -/
 mutual
   def dens : Ty → Nat
-    | .varBytes _ => 18
+    | .varBytes _ => 36
     | .struct fs => densFields fs
     | .list _ _ pre ovh e => pre + ovh + dens e
     | .tagged _ cs d => max (densCases cs) (dens d)
